@@ -128,7 +128,8 @@ def check_config(ctx, drv, cfg, L2, max_index, case_out=None):
     rclass = c13.ref_class(c13.reference_of(cfg, c13.make_f(cfg)))
     base_tags = {"strategy": cfg["strategy"], "ref": rclass, "norm": cfg["norm"], "dim": cfg["dim"],
                  "scale": cfg.get("scale", 1.0), "cache": cfg.get("cache", True), "reevaluate_at_end": bool(cfg.get("reeval")),
-                 "final_stop": "max" if L2["tol"] < 0 else ("min" if L2["tol"] >= 1e9 else "tol")}
+                 "final_stop": "max" if L2["tol"] < 0 else ("min" if L2["tol"] >= 1e9 else ("tol" if L2["min"] <= 1 else "tol<min")),
+                 "grid": cfg.get("grid", "default")}
 
     def corr(obs, impl, model, extra=None):
         nonlocal ok
@@ -150,7 +151,19 @@ def check_config(ctx, drv, cfg, L2, max_index, case_out=None):
         return True
     V0 = view(sa0, cfg)
     res0, pts0, ev0 = result_of(r0), int(r0[6][-1]), int(r0[4])
+    # extend-split sums area values; a leg that recomputes them (container resume, reevaluate_at_end) uses another order, so
+    # results are compared relative to the size of the summands (a zero-integral component is pure cancellation noise)
+    sum_unit, err_unit = 0.0, 0.0
+    if cfg["strategy"] == "extend_split":
+        sum_unit = sum(float(np.sum(np.abs(np.atleast_1d(o.value)))) for o in sa0.refinement.get_objects() if o.value is not None)
+        ref0 = c13.reference_of(cfg, c13.make_f(cfg))
+        nz = [abs(float(x)) for x in ref0 if float(x) != 0.0] if ref0 is not None else []
+        err_unit = 1e-3 * (sum_unit / min(nz) if nz and len(nz) == len(ref0) else sum_unit)   # error = |ref - res| (/ |ref|)
     ctx.count("final_index_%d" % m)
+    # the uninterrupted run itself must stop where ITS limits say (C13's clause; here it decides what "the single run" is)
+    first = next((j for j, (e, p, _s) in enumerate(stream) if c13.stop_rule(L2, e, p)), None)
+    if first != m:
+        corr("single-run-stop-index", "stopped at %d" % m, "first index satisfying the limits: %s" % first)
     rng_pts = [[ctx.rng.choice([0.0, 1.0, 0.5, 0.25, 0.3, 0.7, 0.123, 0.9, 0.625]) for _ in range(cfg["dim"])] for _ in range(5)]
     rng_pts = [tuple(p) for p in rng_pts]
     for i in range(m + 1):
@@ -158,11 +171,15 @@ def check_config(ctx, drv, cfg, L2, max_index, case_out=None):
         # allow it); the continuation must honour the NEW tolerance, not the one of the first call
         L1, pred, first_stop = pick_interrupt_limits(drv, L2, stream, i, m, rng=ctx.rng,
                                                      tol_first=(cfg["strategy"] == "dimwise" and ctx.rng.random() < 0.6))
+        validated = L1 is not None
         if L1 is None:
-            ctx.count("index_not_reachable_by_limits")
-            continue
+            # the model finds no limits that stop the first leg exactly here (equal point counts, or the single run did not
+            # stop where the model expects): interrupt by max_evaluations = pts_i - 1 all the same; if that leg happens to stop
+            # at i the comparison with the single run is as valid as ever, if not the index is skipped
+            L1, pred, first_stop = dict(L2, max=stream[i][1] - 1), None, "unvalidated"
         ctx.count("first_leg_stopped_by_" + first_stop)
         outcomes = {}
+        leg_reached = True
         for save in (False, True):
             sub = dict(case, L1=L1, index=i, save=save)
             tags = dict(base_tags, save=save, at_final=(i == m), index=i, first_stop=first_stop)
@@ -172,6 +189,10 @@ def check_config(ctx, drv, cfg, L2, max_index, case_out=None):
             except Exception as e:  # noqa: BLE001
                 ok = not ctx.violation("interrupted-run-raises", tags, sub, {"exception": "%s: %s" % (type(e).__name__, e)}) and ok
                 continue
+            if not validated and (len(r1[5]) != i + 1 or [tuple(map(repr, x)) for x in stream_of(r1)] != [tuple(map(repr, x)) for x in stream[:i + 1]]):
+                ctx.count("index_not_reachable_by_limits")
+                leg_reached = False
+                break
             if len(r1[5]) != i + 1 or [tuple(map(repr, x)) for x in stream_of(r1)] != [tuple(map(repr, x)) for x in stream[:i + 1]]:
                 corr("interrupted-run-stops-at-index", "stopped after %d evaluations" % len(r1[5]), "stop1 i=%d" % i, sub)
                 continue
@@ -221,6 +242,7 @@ def check_config(ctx, drv, cfg, L2, max_index, case_out=None):
                 rep_b = (int(twin.get_total_num_points()), int(twin.refinement.evaluationstotal), [float(x) for x in np.atleast_1d(twin.operation.get_result())])
                 if rep_a != rep_b:
                     bad["reported"] = {"original (points, evaluations, result)": rep_a, "restored": rep_b}
+                a_call = None
                 try:
                     a_call = np.asarray(quiet(sa, list(rng_pts)), dtype=float)
                     b_call = np.asarray(quiet(twin, list(rng_pts)), dtype=float)
@@ -236,6 +258,9 @@ def check_config(ctx, drv, cfg, L2, max_index, case_out=None):
                     bad["exception"] = "%s: %s" % (type(e).__name__, e)
                 if bad:
                     ok = not ctx.violation("restore-vs-original", tags, dict(sub, points=rng_pts), bad) and ok
+                late_twin = (twin, a_call if "exception" not in bad else None)
+            else:
+                late_twin = None
             try:
                 r2 = cont(inst, L2)
             except c13.Runaway:
@@ -244,6 +269,18 @@ def check_config(ctx, drv, cfg, L2, max_index, case_out=None):
             except Exception as e:  # noqa: BLE001
                 ok = not ctx.violation("continue-raises", tags, sub, {"exception": "%s: %s" % (type(e).__name__, e)}) and ok
                 continue
+            if late_twin is not None and late_twin[1] is not None:
+                # a second restored copy is interpolated only NOW, after another live instance (the continued one) has evaluated:
+                # it must still answer like the instance that was saved
+                try:
+                    c_call = np.asarray(quiet(late_twin[0], list(rng_pts)), dtype=float)
+                    if c_call.shape != late_twin[1].shape or not np.array_equal(c_call, late_twin[1], equal_nan=True):
+                        ok = not ctx.violation("restore-vs-original", tags, dict(sub, points=rng_pts),
+                                               {"call_after_another_instance_evaluated": {"saved": late_twin[1].tolist(), "restored": c_call.tolist()}}) and ok
+                    ctx.count("restore_compared_late")
+                except Exception as e:  # noqa: BLE001
+                    ok = not ctx.violation("restore-vs-original", tags, dict(sub, points=rng_pts),
+                                           {"call_after_another_instance_evaluated": "%s: %s" % (type(e).__name__, e)}) and ok
             V2 = view(inst, cfg)
             res2, pts2, ev2 = result_of(r2), int(r2[6][-1]), int(r2[4])
             outcomes[save] = (V2, res2, pts2, ev2, [int(x) for x in r2[6]], len(r2[5]), len(r2[7]))
@@ -252,7 +289,7 @@ def check_config(ctx, drv, cfg, L2, max_index, case_out=None):
                 differs.append("structure")
             if V2["scheme"] != V0["scheme"]:
                 differs.append("scheme")
-            if not vec_close(res2, res0):
+            if not vec_close(res2, res0, unit=1e-3 * sum_unit):
                 differs.append("result")
             if pts2 != pts0 or int(inst.get_total_num_points()) != int(sa0.get_total_num_points()):
                 differs.append("points")
@@ -261,7 +298,7 @@ def check_config(ctx, drv, cfg, L2, max_index, case_out=None):
             # both runs end in the same state, so the error they report for their last evaluation (= the deviation of the
             # combined result the loop worked with from the reference) must agree as well -- provided the evaluation at the
             # interruption state is re-entrant (otherwise the duplicated evaluation itself may legitimately differ)
-            if reent and not vec_close([float(r2[5][-1])], [float(r0[5][-1])]):
+            if reent and not vec_close([float(r2[5][-1])], [float(r0[5][-1])], unit=err_unit):
                 differs.append("final-error")
             if differs:
                 # is the difference exactly "the areas that were new at the interruption were added a second time"?
@@ -276,13 +313,14 @@ def check_config(ctx, drv, cfg, L2, max_index, case_out=None):
                 ctx.count("defect_cases")
             else:
                 # the model's prediction of the continued run's arrays (one duplicated entry at the interruption index)
-                corr("resumed-arrays", "lens=%d,%d,%d pts=%s" % (len(r2[5]), len(r2[6]), len(r2[7]), [int(x) for x in r2[6]]),
-                     "lens=%d,%d,%d pts=%s" % (pred["lens"][0], pred["lens"][1], pred["lens"][2], pred["pts"]), sub)
+                if pred is not None:
+                    corr("resumed-arrays", "lens=%d,%d,%d pts=%s" % (len(r2[5]), len(r2[6]), len(r2[7]), [int(x) for x in r2[6]]),
+                         "lens=%d,%d,%d pts=%s" % (pred["lens"][0], pred["lens"][1], pred["lens"][2], pred["pts"]), sub)
                 # (the theorem gives the final error only under re-entrance of the evaluation at the interruption state)
-                if reent and not vec_close([float(r2[5][-1])], [float(r0[5][-1])]):
+                if reent and not vec_close([float(r2[5][-1])], [float(r0[5][-1])], unit=err_unit):
                     corr("resumed-final-error", r2[5][-1], r0[5][-1], sub)
             ctx.case(sub, nontrivial=True, sample=sub if ctx.evaluations < 2 else None)
-        if i < m and (cfg["strategy"] == "dimwise" or ES_CONTAINER_RESUME):
+        if i < m and leg_reached and (cfg["strategy"] == "dimwise" or ES_CONTAINER_RESUME):
             # second way to resume: hand the reached refinement back, performSpatiallyAdaptiv(..., refinement_container=...)
             # on the same object (arrays start again; the refinement is re-initialised and re-evaluated)
             sub = dict(case, L1=L1, index=i, mode="container")
@@ -302,7 +340,7 @@ def check_config(ctx, drv, cfg, L2, max_index, case_out=None):
                     differs.append("structure")
                 if V2["scheme"] != V0["scheme"]:
                     differs.append("scheme")
-                if not vec_close(res2, res0):
+                if not vec_close(res2, res0, unit=1e-3 * sum_unit):
                     differs.append("result")
                 if pts2 != pts0 or int(sa.get_total_num_points()) != int(sa0.get_total_num_points()):
                     differs.append("points")
@@ -335,7 +373,17 @@ def gen_final_limits(rng, stream, max_index, strategy):
     kinds for both strategies (extend-split final limits may be error-driven since the re-evaluation double count is repaired)"""
     m = rng.randrange(0, min(len(stream), max_index + 1))
     e, p, _ = stream[m]
-    kind = rng.choice(["max", "max", "tol", "tol", "tol+min"])
+    kind = rng.choice(["max", "max", "tol", "tol", "tol+min", "tol<min", "tol<min"])
+    if kind == "tol<min" and m >= 1:
+        # a tolerance that is met at an EARLIER evaluation j < m, and a minimum point count that is only reached at m: every leg
+        # -- the uninterrupted run too -- has to go on until the minimum is reached
+        j = rng.randrange(0, m)
+        tol = stream[j][0]
+        if math.isfinite(tol) and tol > 0:
+            if strategy == "extend_split":
+                tol = tol * (1 + 1e-9)
+            if not any(math.isfinite(x[0]) and abs(x[0] - tol) <= 1e-10 * abs(tol) for x in stream) or strategy != "extend_split":
+                return {"tol": tol, "min": p, "max": None if rng.random() < 0.5 else stream[min(len(stream) - 1, max_index)][1] - 1}
     if kind == "max" or not math.isfinite(e):
         return {"tol": -1.0, "min": 1, "max": p - 1}
     if kind == "tol":
@@ -391,6 +439,10 @@ def run(ctx):
             cfg["ref"] = "exact"
         # every leg (and the single run it is compared with) ends with evaluate_final_combi(): whatever that recomputation
         # leaves in the areas / intervals is what the continued leg starts from
+        if cfg["strategy"] == "dimwise" and not deep and ctx.rng.random() < 0.3:
+            # global basis-function grids: their per-component-grid surplusses are part of what save/restore has to carry
+            cfg["grid"], cfg["p"] = ctx.rng.choice([("global_bspline", 3), ("global_bspline", 1), ("global_lagrange", 2), ("global_lagrange", 1)])
+            ctx.count("grid_" + cfg["grid"])
         cfg["reeval"] = ctx.rng.random() < 0.35
         ctx.count("reevaluate_at_end_%s" % cfg["reeval"])
         cap = (480 if deep else ctx.rng.choice([60, 90, 130] if cfg["dim"] == 2 else [120, 200]))
@@ -406,7 +458,7 @@ def run(ctx):
             L2 = {"tol": -1.0, "min": 1, "max": scout[mfin][1] - 1}
         else:
             L2 = gen_final_limits(ctx.rng, scout, max_index, cfg["strategy"])
-        ctx.count("strategy_" + cfg["strategy"]); ctx.count("ref_" + cfg["ref"]); ctx.count("L2_" + ("max" if L2["tol"] < 0 else ("tol+min" if L2["tol"] >= 1e9 else "tol")))
+        ctx.count("strategy_" + cfg["strategy"]); ctx.count("ref_" + cfg["ref"]); ctx.count("L2_" + ("max" if L2["tol"] < 0 else ("tol+min" if L2["tol"] >= 1e9 else ("tol" if L2["min"] <= 1 else "tol<min"))))
         ctx.count("cache_%s" % cfg.get("cache", True))
         check_config(ctx, drv, cfg, L2, 10 if deep else max_index)
         if (len(ctx.violations) + len(ctx.corr_breaks)) >= ctx.max_reports:
